@@ -17,8 +17,8 @@ pub struct C04Case {
     pub stride: u32,
 }
 
-fn no_trouble(_sim: &Sim, info: &StepInfo) -> Result<(), Fail> {
-    panic_or_err(info, "C04", true)
+fn no_trouble(sim: &Sim, info: &StepInfo) -> Result<(), Fail> {
+    panic_or_err(sim, info, "C04", true)
 }
 
 fn formed(spec: &ClusterSpec) -> Result<Option<(Sim, u64)>, Fail> {
@@ -206,7 +206,7 @@ pub fn run(ctx: &Ctx, report: &mut Report) -> EvidenceMeta {
     ctx.run_part(&DropPart, report);
     EvidenceMeta {
         level: "fault_enumeration",
-        rule: "simulated formed clusters (n 2..=8, notify_down_members on/off, renewable and non-renewable identities, suspect_to_down_after 3..6 probe periods, generated latencies, seeds, fan-out, periodic tasks) in which exactly the k-th datagram after formation is lost; for every base run k is enumerated over a window of n+2 probe periods of traffic (every datagram in the thorough tier, every 6th with a random phase in the quick tier). evaluations = base runs, sub_evaluations = drop points executed; the histogram of dropped message kinds is reported. Oracle: from the drop until (2n+2) probe periods + suspect_to_down_after later no MemberDown, Idle, Defunct or Rejoin anywhere, no identity change, and at that deadline every instance lists every other as Alive. Non-trivial: the loss was visible (a Suspect record or an indirect probe round followed); distinct = (n, dropped kind, suspicion, indirect, notify_down, renewable, phase)."
+        rule: "simulated formed clusters (n 2..=8, notify_down_members on/off, renewable and non-renewable identities, suspect_to_down_after 3..6 probe periods, generated latencies, seeds, fan-out, periodic tasks, starting incarnations 0..Incarnation::MAX-1 so that the one refutation a lost datagram can cost is still possible) in which exactly the k-th datagram after formation is lost; for every base run k is enumerated over a window of n+2 probe periods of traffic (every datagram in the thorough tier, every 6th with a random phase in the quick tier). evaluations = base runs, sub_evaluations = drop points executed; the histogram of dropped message kinds is reported. Oracle: from the drop until (2n+2) probe periods + suspect_to_down_after later no MemberDown, Idle, Defunct or Rejoin anywhere, no identity change, and at that deadline every instance lists every other as Alive. Non-trivial: the loss was visible (a Suspect record or an indirect probe round followed); distinct = (n, dropped kind, suspicion, indirect, notify_down, renewable, phase)."
             .into(),
         assumptions: vec![
             "apart from the one lost datagram the transport and timers are fault-free: per-message latency < min(probe_rtt/4, (probe_period - probe_rtt)/5), so that a direct probe completes within probe_rtt and an indirect round before the next probe period (the timing the configuration documents: 'probe_period ... we need to wait for the indirect ping cycle')".into(),
